@@ -143,6 +143,10 @@ def check(repo: Repo, run: Run) -> None:
     take_over(run, "c15", "C15", repo, lambda o: o["rule"] == "R3" and "cs_frames" in o["construct"], "R0", "user stack of a sample",
               "the user stack a sample carries is made of the words of the stack records nested in its window: words dropped or "
               "rewritten by the decoder of those records are missing from the sample", 1)
+    take_over(run, "c04", "C04", repo, lambda o: o["rule"] == "K6" and o["construct"] == "domain selection", "R0",
+              "pairing domain of the composite windows", "a composite decoder sees the records nested in its window: records of kinds "
+              "the tool does not decode belong to the ordinary domain like the composite itself, or the first nested record it "
+              "selects is not the first one logged", 1)
     take_over(run, "c04", "C04", repo, lambda o: o["rule"] == "K9", "R0", "dispatch of nested records",
               "the composite decoders hand the nested records they select to parse_event_list: a list it declines gives no nested "
               "trace, so the fields taken from it stay empty", 3)
